@@ -280,3 +280,36 @@ Proof.
   pose proof (siblings_children _ _ B) as S. fold w in S.
   do 4 eexists. split; [reflexivity|]. split; [exact T|]. split; [exact S|]. lia.
 Qed.
+
+Lemma cell_center c : valid c -> rmin c + rmax c = 2 * c.
+Proof.
+  intros V. destruct (valid_cellform _ V) as [s H]. rewrite (rangemin_form _ _ H), (rangemax_form _ _ H). lia.
+Qed.
+
+(** the height (30 - level) of a valid cell, and how Children lowers it *)
+Lemma children_cellform p s : cellform p s -> 0 < s -> forall k, In k (s2_CellID_Children p) -> cellform k (s - 1).
+Proof.
+  intros H Hpos k Hk. rewrite (children_form _ _ H Hpos) in Hk.
+  pose proof (cellform_bounds _ _ H) as Hcb. destruct H as (Hs & Hm & Hb).
+  assert (E4 : 4 ^ s = 4 * 4 ^ (s - 1)) by (rewrite <- pow4_succ by lia; f_equal; lia).
+  pose proof (pow4_bound (s - 1) ltac:(lia)) as Hw. rewrite E4 in *. set (w := 4 ^ (s - 1)) in *.
+  assert (B : block (p - 4 * w) (s - 1)).
+  { repeat split; try lia. fold w.
+    replace (p - 4 * w) with ((p / (2 * (4 * w))) * (8 * w)) by (pose proof (Z.div_mod p (2 * (4 * w)) ltac:(lia)); lia).
+    apply Z.mod_mul. lia. }
+  destruct Hk as [<-|[<-|[<-|[<-|[]]]]].
+  - pose proof (block_child _ _ 0 B ltac:(lia)) as F. fold w in F. replace ((2 * 0 + 1) * w) with w in F by ring. exact F.
+  - pose proof (block_child _ _ 1 B ltac:(lia)) as F. fold w in F. replace (2 * 1 + 1) with 3 in F by ring. exact F.
+  - pose proof (block_child _ _ 2 B ltac:(lia)) as F. fold w in F. replace (2 * 2 + 1) with 5 in F by ring. exact F.
+  - pose proof (block_child _ _ 3 B ltac:(lia)) as F. fold w in F. replace (2 * 3 + 1) with 7 in F by ring. exact F.
+Qed.
+
+Lemma leaf_cellform_0 c s : cellform c s -> (leaf c <-> s = 0).
+Proof.
+  intros H. split.
+  - intros L. destruct (Z.eq_dec s 0); [assumption|]. exfalso.
+    destruct (cellform_split _ _ H) as [Ec _]. destruct H as (Hs & _ & _).
+    pose proof (pow4_even s ltac:(lia)) as He. unfold leaf in L.
+    rewrite Ec, Z.mul_mod, He, Z.mul_0_r in L by lia. cbn in L. lia.
+  - intros ->. destruct H as (_ & Hm & _). exact Hm.
+Qed.
